@@ -2,7 +2,8 @@
      struct DrawExecutor {screen, terminal_resolution, pen_colors, polymarker_color, line_color, fill_color, text_color,
                           fill_pattern, draw_border} (the fields these commands read or write),
      DrawExecutor::{default, get_resolution, set_pixel, get_pixel, fill_pixel, fill_rect, clear, get_picture_data},
-     execute_command arms ColorSet, FilledRectangle, AttributeForFills, ScreenClear, SetResolution.
+     execute_command arms ColorSet, FilledRectangle, AttributeForFills, ScreenClear, SetResolution, HollowSet, DrawingMode,
+     SetPenColor.
    i32 arithmetic is checked (chk, Panic SITE_I32), Vec / slice indexing is checked, `%` by zero is a panic site.
    [igs_x] packages the executor as the total `exec` function Model/IgsTok.v takes as a parameter: a panic or a command outside
    this kernel is a sticky outcome.  Executable definitions only. *)
@@ -171,6 +172,21 @@ Definition igs_exec (e : iexec) (c : N) (ps : list Z) (s : str) : xres :=
               else if p1 =? 1 then Ok (e_with_pens e2 IGS_SYSTEM_PALETTE, true)
               else if p1 =? 2 then Ok (e_with_pens e2 IGS_PALETTE, true)
               else Ok (e2, false))
+  else if (c =? 72)%N then (* 'H' HollowSet: hollow_set is read by no modelled command *) xlift (
+    if negb (Nat.eqb (length ps) 1) then Ok (e, false)
+    else p0 <- par ps 0 ;; Ok (e, (p0 =? 0) || (p0 =? 1)))
+  else if (c =? 77)%N then (* 'M' DrawingMode: drawing_mode is read by no modelled command *) xlift (
+    if negb (Nat.eqb (length ps) 1) then Ok (e, false)
+    else p0 <- par ps 0 ;; Ok (e, (1 <=? p0) && (p0 <=? 4)))
+  else if (c =? 83)%N then (* 'S' SetPenColor: pen_colors[color] = ((p as u8) << 5 | p as u8) per channel *) xlift (
+    if negb (Nat.eqb (length ps) 4) then Ok (e, false)
+    else p0 <- par ps 0 ;; p1 <- par ps 1 ;; p2 <- par ps 2 ;; p3 <- par ps 3 ;;
+         if negb ((0 <=? p0) && (p0 <=? 15)) then Ok (e, false)
+         else let ch v := let b := z_as_u8 v in N.lor (N.land (N.shiftl b 5) 255) b in
+              match set_nth (e_pens e) (Z.to_nat p0) (ch p1, ch p2, ch p3) with
+              | Some pens => Ok (e_with_pens e pens, true)
+              | None => Panic SITE_IGS_PEN
+              end)
   else (* every other arm that begins with `if parameters.len() != N { return Err(..) }` (generated table): the wrong number of
           parameters is an error before anything is touched; with the right number the command is outside this kernel *)
     match lookup c IGS_ARITY with
